@@ -35,8 +35,8 @@ func (c *recCache) Get(key interface{}) (interface{}, bool) {
 }
 
 type objInfo struct {
-	idx  int
-	snap string
+	idx    int
+	snap   string
 	shared bool
 }
 
